@@ -67,6 +67,9 @@ pub fn schema_ty<T: FullS>(g: &mut Gen, b: &Budget, out: &mut Sink) {
     // the specification's verdict on the reported bound
     out.case(&format!("contchk lax {} {}", hex(&bs), m.replace(' ', "_").replace('(', "").replace(')', "")), "ok");
     out.case(&format!("contval lax {} {}", hex(&bs), v.replace(' ', "_").replace('(', "").replace(')', "")), "ok");
+    // the hypotheses of the "schema describes the encoding" theorem (name coherence, shape,
+    // well-formedness) hold at every catalogue type: the theorem covers what the workload samples
+    out.case(&format!("hyp08 {}", ty), "ok");
     // the tightness theorem's hypothesis holds for the container of every Rust type
     out.case(&format!("contread {}", hex(&bs)), &format!("readable={}", readable(&c)));
     out.oracle("C09", readable(&c), &case, "the container of a Rust type has a definition that cannot be read (empty enum, repeated or out-of-range discriminant, range that does not fit its width)");
